@@ -178,8 +178,15 @@ func digestValue(v interface{}) string {
 
 // project maps a real resolution model to the abstract record. Anything the abstraction
 // cannot name becomes a negative / 1000+ id, which never equals a specification value.
-func (e *applierEnv) project(rm *protocol.ResolutionModel) ARM {
-	a := ARM{}
+func (e *applierEnv) project(rm *protocol.ResolutionModel) (a ARM) {
+	// (states are shared between the goroutines of a replay: a library that writes into the state it is given makes
+	// another goroutine read torn values here; that is reported as the mutation it is - see stepVariant - and as a
+	// state no specification value equals)
+	defer func() {
+		if r := recover(); r != nil {
+			a = ARM{Ao: -99}
+		}
+	}()
 	a.Exists = rm.Doc != nil
 
 	for _, pk := range rm.Doc.PublicKeys() {
